@@ -210,9 +210,10 @@ def make_kw_dir(r, d):
     os.makedirs(d)
     files = []
     for i in range(r.randint(1, 5)):
-        sub = r.choice(["", "", "sub", "sub/deeper"])
+        sub = r.choice(["", "", "sub", "sub/deeper", "sub.d", ".hid/den", "a b/c"])
         os.makedirs(os.path.join(d, sub), exist_ok=True)
-        name = r.choice(["api.x", "list", "a.b.c", "vba.name", "K", "ключ", "naïve.list", "中文"]) + str(i)
+        name = r.choice(["api.x", "list", "a.b.c", "vba.name", "K", "ключ", "naïve.list", "中文", ".hidden", "notes.txt", "README.md",
+                         "__init__.py", "a b", "x~", "UPPER.CASE", "words.json", "#x#", "-dash", "x.bak"]) + str(i)
         kws = [k for k in (rand_kw(r) for _ in range(r.randint(0, 4)))]
         kws = [k for k in kws if k.strip(b"\x0b\x0c\x1c\x1d\x1e\x85") == k and not any(c in k for c in b"\x0b\x0c\x1c\x1d\x1e\x85")]
         if kws and r.random() < 0.3:
